@@ -142,7 +142,7 @@ def opMV (C : Ctx) (name : String) (args : List String) : Option String := do
   | "sinh", [n, a] => some (showMV (C.oddSeries false (← n.toNat?) (← parseMV a)))
   | "cos", [n, a] => some (showMV (C.evenSeries true (← n.toNat?) (← parseMV a)))
   | "cosh", [n, a] => some (showMV (C.evenSeries false (← n.toNat?) (← parseMV a)))
-  | "expscale", [a] => some (toString (Ctx.expScale (Ctx.maxAbsFloor (← parseMV a))))
+  | "expscale", [a] => some (toString (Ctx.expScale (Ctx.sumAbsFloor (← parseMV a))))
   | "revsigns", [] => some (showInts C.revSigns.toList)
   | "gisigns", [] => some (showInts C.giSigns.toList)
   | "lcompsigns", [] => some (showInts C.leftCompSigns.toList)
